@@ -52,6 +52,12 @@ Round(res) ==
                              td |-> Cardinality(Flips(res, "D"))] ELSE <<>>)
   /\ (IF Trig /\ BrkAfter(res) # {} THEN brk' \in BrkAfter(res) ELSE brk' = brk)
   /\ UNCHANGED <<cfg, lastElig, lastKind, cnt>>
+\* an observation in the middle of a round: the checks of the resources in fin have ended, the others are still running.
+\* What has ended is published already - a result does not wait for the slower checks of other resources.
+Mid(res, fin, shown) ==
+  /\ \A r \in fin : shown[r] = NewStatus(r, res[r])
+  /\ ev' = [e |-> "mid"]
+  /\ UNCHANGED <<cfg, status, cf, cs, rounds, lastElig, lastKind, cnt, brk>>
 Eligible(kind) == IF kind = "healthy" THEN {r \in R : status[r] = "healthy"} ELSE {r \in R : status[r] \in {"healthy", "degraded"}}
 \* selection: nothing iff nobody qualifies; otherwise a resource that qualifies now;
 \* round robin: within a run of selections over an unchanged eligible set the counts differ by at most one
